@@ -2,6 +2,17 @@ import Toq.Model.MatrixOps
 import Toq.Model.MatrixPreds
 import Toq.Spec.MatrixOps
 import Toq.Proofs.MatrixOps
+import Toq.Model.MatrixPredsTol
+import Toq.Model.MatrixPredsDet
+import Toq.Proofs.MatrixOpsTol
+import Toq.Proofs.MatrixOpsExtra
+import Toq.Proofs.MatrixOpsDiagDom
+import Toq.Proofs.MatrixOpsInv
+import Toq.Proofs.MatrixOpsSpectral
+import Toq.Proofs.MatrixOpsComm
+import Toq.Proofs.MatrixOpsDet
+import Toq.Proofs.MatrixOpsUpb
+import Toq.Proofs.MatrixOpsPsd
 /-!
 # C16 — matrix / state-set predicates and linear-algebra helpers match their definitions
 
@@ -14,6 +25,15 @@ Property theorems only (helper lemmas live in `Toq/Proofs/MatrixOps.lean`).
 * Part 3: the invariances the harness generators rely on (over commutative star rings, all sizes).
 * Part 4: the exact rank routine is Mathlib's `Matrix.rank` (`rank_correct`), and what `spark`, `linIndepV`, the UPB rank
   test and `commutantDim` therefore compute.
+* Part 5: the tolerance-level mirrors (`Toq/Model/MatrixPredsTol.lean`): `closeQ` / `allcloseQ` are `np.isclose` / `np.allclose`
+  over the reals, and every three-valued verdict forces the verdict of the tolerance-level mirror.
+* Part 6: readings of the remaining deciders (pseudo-unitary, pseudo-Hermitian, stochastic, positive, diagonally dominant, totally
+  positive with the proved determinant, definiteness with self-checked certificates, density, pure / mixed, ensemble, mutually
+  orthogonal, orthonormal, mutually unbiased, unextendible product bases incl. order independence).
+* Part 7: helper operations, continued (n-ary associativity of `tensor`, `unvec` rejections, `majorizes` with its tolerance term,
+  the commutant is the null space and `commutantDim` its dimension, Gram matrices are PSD, eigen-branch round trip, Frobenius
+  shortcut of `kp_norm`, trace norm of Hermitian / PSD matrices).
+* Part 8: invariance of every predicate's defining relation under the transformations the harness applies.
 -/
 namespace Toq.C16
 open Toq.MatrixOps Toq.MatrixPreds
@@ -432,5 +452,744 @@ theorem commutantDim_eq_nullity (dim : Nat) (gens : List (Mat QI)) :
 example : rank 2 3 #[#[1, 0, 1], #[0, ⟨0, 1⟩, ⟨0, 1⟩]] = 2 ∧ spark 2 3 #[#[1, 0, 1], #[0, ⟨0, 1⟩, ⟨0, 1⟩]] = 3
     ∧ spark 2 2 #[#[1, ⟨2, 0⟩], #[⟨2, 0⟩, ⟨4, 0⟩]] = 2 := by
   decide +kernel
+
+
+/-! ## Part 5 — the tolerance-level mirrors (`Toq/Model/MatrixPredsTol.lean`) -/
+
+/-- **`closeQ` is `np.isclose`.**  For `rtol, atol ≥ 0` the exact rational test `closeQ a b rtol atol` holds iff
+    `|a − b| ≤ atol + rtol·|b|` for the complex numbers denoted by `a`, `b` (moduli over the reals; note the asymmetry in `a`, `b`). -/
+theorem isclose_is_numpy (a b : QI) (rtol atol : Rat) (hr : 0 ≤ rtol) (ht : 0 ≤ atol) :
+    closeQ a b rtol atol = true ↔ ‖a.toC - b.toC‖ ≤ ((atol : Rat) : ℝ) + ((rtol : Rat) : ℝ) * ‖b.toC‖ :=
+  closeQ_iff_real a b rtol atol hr ht
+
+/-- **`allcloseQ` is `np.allclose`**: every entry of the first matrix is close to the corresponding entry of the second (reference)
+    matrix in the sense of `np.isclose`. -/
+theorem allclose_is_numpy (L R : Mat QI) (rtol atol : Rat) (hr : 0 ≤ rtol) (ht : 0 ≤ atol) :
+    allcloseQ L R rtol atol = true ↔ ∀ i j, i < L.r → j < L.c →
+      ‖(L.f i j).toC - (R.f i j).toC‖ ≤ ((atol : Rat) : ℝ) + ((rtol : Rat) : ℝ) * ‖(R.f i j).toC‖ :=
+  allcloseQ_iff_real L R rtol atol hr ht
+
+/-- the library defaults `rtol = 1e-5`, `atol = 1e-8` are dominated by the margin `1e-3` the harness uses (`4·rtol ≤ m`, `4·atol ≤ m`). -/
+theorem tolerance_default_ok : TolOK (1 / 1000) rtolDefault atolDefault := tolOK_default
+
+/-- **exact equality forces `np.allclose`**: a `yes` of the three-valued equation decider implies that the comparison of the same two
+    sides with any tolerances holds. -/
+theorem equation_yes_forces_allclose (L R : Mat QI) (m rtol atol : Rat) (hr : R.r = L.r) (hc : R.c = L.c)
+    (h : eqV L R m = .yes) : allcloseF L R rtol atol = true :=
+  eqV_yes_allcloseF L R m rtol atol hr hc h
+
+/-- **a violation by the margin forces `np.allclose` to fail**: a `no` of the three-valued equation decider (some entry differs by
+    `≥ m·(1+scale)`) implies that the comparison fails for all tolerances with `4·rtol ≤ m`, `4·atol ≤ m`. -/
+theorem equation_no_forces_not_allclose (L R : Mat QI) (m rtol atol : Rat) (hr : R.r = L.r) (hc : R.c = L.c)
+    (hok : TolOK m rtol atol) (h : eqV L R m = .no) : allcloseF L R rtol atol = false :=
+  eqV_no_allcloseF L R m rtol atol hr hc hok h
+
+/-- `is_hermitian`: the three-valued verdict forces the verdict of the code's own test `allclose(mat, mat.conj().T, rtol, atol)`. -/
+theorem hermitian_tolerance_agrees (A : Mat QI) (m rtol atol : Rat) :
+    (hermitianV A m = .yes → hermitianT A rtol atol = true) ∧
+    (TolOK m rtol atol → hermitianV A m = .no → hermitianT A rtol atol = false) := hermitianV_tol A m rtol atol
+
+/-- `is_anti_hermitian` (`is_hermitian(1j * mat)`): likewise. -/
+theorem antiHermitian_tolerance_agrees (A : Mat QI) (m rtol atol : Rat) :
+    (antiHermitianV A m = .yes → antiHermitianT A rtol atol = true) ∧
+    (TolOK m rtol atol → antiHermitianV A m = .no → antiHermitianT A rtol atol = false) := antiHermitianV_tol A m rtol atol
+
+/-- `is_symmetric`: likewise. -/
+theorem symmetric_tolerance_agrees (A : Mat QI) (m rtol atol : Rat) :
+    (symmetricV A m = .yes → symmetricT A rtol atol = true) ∧
+    (TolOK m rtol atol → symmetricV A m = .no → symmetricT A rtol atol = false) := symmetricV_tol A m rtol atol
+
+/-- `is_normal` (`allclose(A Aᴴ, Aᴴ A)`): likewise. -/
+theorem normal_tolerance_agrees (A : Mat QI) (m rtol atol : Rat) :
+    (normalV A m = .yes → normalT A rtol atol = true) ∧
+    (TolOK m rtol atol → normalV A m = .no → normalT A rtol atol = false) := normalV_tol A m rtol atol
+
+/-- `is_unitary` (both `allclose(Uᴴ U, I)` and `allclose(U Uᴴ, I)`): likewise. -/
+theorem unitary_tolerance_agrees (A : Mat QI) (m rtol atol : Rat) :
+    (unitaryV A m = .yes → unitaryT A rtol atol = true) ∧
+    (TolOK m rtol atol → unitaryV A m = .no → unitaryT A rtol atol = false) := unitaryV_tol A m rtol atol
+
+/-- `is_pseudo_unitary(mat, p, q)` for `p, q ≥ 0`: likewise (negative `p`, `q` are the `ValueError` branch of the mirror). -/
+theorem pseudoUnitary_tolerance_agrees (A : Mat QI) (p q : Nat) (m rtol atol : Rat) :
+    (pseudoUnitaryV A p q m = .yes → pseudoUnitaryT A p q rtol atol = .ok true) ∧
+    (TolOK m rtol atol → pseudoUnitaryV A p q m = .no → pseudoUnitaryT A p q rtol atol = .ok false) :=
+  pseudoUnitaryV_tol A p q m rtol atol
+
+/-- `is_identity`: likewise. -/
+theorem identity_tolerance_agrees (A : Mat QI) (m rtol atol : Rat) :
+    (identityV A m = .yes → identityT A rtol atol = true) ∧
+    (TolOK m rtol atol → identityV A m = .no → identityT A rtol atol = false) := identityV_tol A m rtol atol
+
+/-- `is_idempotent` (`allclose(mat, mat @ mat)`, reference side the square): likewise. -/
+theorem idempotent_tolerance_agrees (A : Mat QI) (m rtol atol : Rat) :
+    (idempotentV A m = .yes → idempotentT A rtol atol = true) ∧
+    (TolOK m rtol atol → idempotentV A m = .no → idempotentT A rtol atol = false) := idempotentV_tol A m rtol atol
+
+/-- `is_projection` (`allclose(matrix_power(mat, 2), mat)`, reference side the matrix): likewise. -/
+theorem projection_tolerance_agrees (A : Mat QI) (m rtol atol : Rat) :
+    (projectionV A m = .yes → projectionT A rtol atol = true) ∧
+    (TolOK m rtol atol → projectionV A m = .no → projectionT A rtol atol = false) := projectionV_tol A m rtol atol
+
+/-- `is_circulant` (row-by-row `allclose(mat[i+1], roll(mat[i], 1))`): likewise, for any tolerances and in particular the defaults. -/
+theorem circulant_tolerance_agrees (A : Mat QI) (m rtol atol : Rat) :
+    (circulantV A m = .yes → circulantTol A rtol atol = true) ∧
+    (TolOK m rtol atol → circulantV A m = .no → circulantTol A rtol atol = false) := circulantV_tol A m rtol atol
+
+/-- `is_commuting` (`allclose(AB − BA, 0)`): likewise. -/
+theorem commuting_tolerance_agrees (A B : Mat QI) (m rtol atol : Rat) (hc : A.c = B.c) :
+    (commutingV A B m = .yes → commutingTol A B rtol atol = true) ∧
+    (TolOK m rtol atol → commutingV A B m = .no → commutingTol A B rtol atol = false) := commutingV_tol A B m rtol atol hc
+
+/-- `is_stochastic(mat, mat_type)` (`mat_type ∈ {left, right, doubly}`): likewise. -/
+theorem stochastic_tolerance_agrees (A : Mat QI) (k : Nat) (hk : k ≤ 2) (m rtol atol : Rat) :
+    (stochasticV A k m = .yes → stochasticTol A k rtol atol = .ok true) ∧
+    (TolOK m rtol atol → stochasticV A k m = .no → stochasticTol A k rtol atol = .ok false) := stochasticV_tol A k hk m rtol atol
+
+/-- `is_mutually_orthogonal`: likewise, and the `ValueError` for fewer than two vectors is raised by both or neither. -/
+theorem mutuallyOrthogonal_tolerance_agrees (d n : Nat) (vs : Nat → Nat → QI) (m rtol atol : Rat) :
+    (mutuallyOrthogonalV d n vs m = .ok .yes → mutuallyOrthogonalTol d n vs rtol atol = .ok true) ∧
+    (TolOK m rtol atol → mutuallyOrthogonalV d n vs m = .ok .no → mutuallyOrthogonalTol d n vs rtol atol = .ok false) ∧
+    (∀ e, mutuallyOrthogonalV d n vs m = .error e ↔ mutuallyOrthogonalTol d n vs rtol atol = .error e) :=
+  mutuallyOrthogonalV_tol d n vs m rtol atol
+
+/-- `is_orthonormal`: likewise. -/
+theorem orthonormal_tolerance_agrees (d n : Nat) (vs : Nat → Nat → QI) (m rtol atol : Rat) :
+    (orthonormalV d n vs m = .ok .yes → orthonormalTol d n vs rtol atol = .ok true) ∧
+    (TolOK m rtol atol → orthonormalV d n vs m = .ok .no → orthonormalTol d n vs rtol atol = .ok false) :=
+  orthonormalV_tol d n vs m rtol atol
+
+/-- **the eigenvalue test of `is_positive_semidefinite`** (`all(eigvalsh(A) ≥ −|atol|)`) is positive semidefiniteness of `A + |atol|·1`:
+    for Hermitian `A` and real `t`, `A + t·1` is positive semidefinite iff every eigenvalue is `≥ −t`. -/
+theorem psd_shift_iff_eigenvalues {n : Type} [Fintype n] [DecidableEq n] (A : Matrix n n ℂ) (hA : A.IsHermitian) (t : ℝ) :
+    (A + (t : ℂ) • (1 : Matrix n n ℂ)).PosSemidef ↔ ∀ i, -t ≤ hA.eigenvalues i :=
+  Toq.MatrixSpectral.posSemidef_shift_iff A hA t
+
+/-! ## Part 6 — readings of the remaining deciders -/
+
+/-- pseudo-unitary decider: `yes` iff square, `p + q = n` and `Aᴴ J A = J` entrywise for `J = diag(1_p, −1_q)`. -/
+theorem pseudoUnitary_yes_iff (A : Mat QI) (p q : Nat) (m : Rat) :
+    pseudoUnitaryV A p q m = .yes ↔ A.r = A.c ∧ p + q = A.r ∧
+      ∀ i j, i < A.r → j < A.r → (mul (mul (ctranspose A) (signature p q)) A).f i j = (signature p q).f i j :=
+  pseudoUnitaryV_yes_iff A p q m
+
+/-- **the exact determinant is Mathlib's determinant** (Laplace expansion `detL`, all sizes). -/
+theorem det_correct (n : Nat) (f : Nat → Nat → QI) : (detL n f).toC = (Toq.Rank.fnToM n n f).det := detL_eq_det n f
+
+/-- **the exact inverse is Mathlib's inverse** (cofactor formula `invL`, all sizes; both are `0` on singular matrices). -/
+theorem inverse_correct (n : Nat) (f : Nat → Nat → QI) : Toq.Rank.fnToM n n (invL n f) = (Toq.Rank.fnToM n n f)⁻¹ := fnToM_invL n f
+
+/-- pseudo-Hermitian decider: `yes` iff the signature `η` is square, Hermitian and invertible, `H` is square of the same size and
+    `η H η⁻¹ = Hᴴ` (Mathlib's inverse). -/
+theorem pseudoHermitian_yes_iff (H η : Mat QI) (m : Rat) :
+    pseudoHermitianVL H η m = .ok .yes ↔
+      η.c = η.r ∧ H.r = η.r ∧ H.c = η.r ∧ (Toq.Rank.fnToM η.r η.r η.f).IsHermitian ∧ IsUnit (Toq.Rank.fnToM η.r η.r η.f).det ∧
+        Toq.Rank.fnToM η.r η.r η.f * Toq.Rank.fnToM η.r η.r H.f * (Toq.Rank.fnToM η.r η.r η.f)⁻¹
+          = (Toq.Rank.fnToM η.r η.r H.f).conjTranspose :=
+  pseudoHermitianVL_yes_iff H η m
+
+/-- … a `no` excludes the exact relation, -/
+theorem pseudoHermitian_no_excludes (H η : Mat QI) (m : Rat) (hno : pseudoHermitianVL H η m = .ok .no) :
+    ¬(H.r = η.r ∧ H.c = η.r ∧
+      Toq.Rank.fnToM η.r η.r η.f * Toq.Rank.fnToM η.r η.r H.f * (Toq.Rank.fnToM η.r η.r η.f)⁻¹
+        = (Toq.Rank.fnToM η.r η.r H.f).conjTranspose) :=
+  pseudoHermitianVL_no_not H η m hno
+
+/-- … and the two `ValueError`s are raised exactly for a signature that is not Hermitian resp. Hermitian with determinant zero. -/
+theorem pseudoHermitian_errors (H η : Mat QI) (m : Rat) :
+    (pseudoHermitianVL H η m = .error "SignatureNotHermitian" ↔ hermitianV η m ≠ .yes) ∧
+    (pseudoHermitianVL H η m = .error "SignatureNotInvertible" ↔
+      η.c = η.r ∧ (Toq.Rank.fnToM η.r η.r η.f).IsHermitian ∧ (Toq.Rank.fnToM η.r η.r η.f).det = 0) :=
+  ⟨pseudoHermitianVL_error_notHermitian_iff H η m, pseudoHermitianVL_error_notInvertible_iff_det H η m⟩
+
+/-- stochastic decider (`k = 0, 1, 2` for left, right, doubly): `yes` iff square, entries real and `≥ 0`, and the required column /
+    row sums are exactly `1`. -/
+theorem stochastic_yes_iff (A : Mat QI) (k : Nat) (m : Rat) :
+    stochasticV A k m = .yes ↔ A.r = A.c ∧ (∀ i j, i < A.r → j < A.c → (A.f i j).im = 0 ∧ 0 ≤ (A.f i j).re) ∧
+      ((k = 0 ∨ k = 2) → ∀ j, j < A.c → sumN A.r (fun i => A.f i j) = 1) ∧
+      ((k = 1 ∨ k = 2) → ∀ i, i < A.r → sumN A.c (fun j => A.f i j) = 1) :=
+  stochasticV_yes_iff A k m
+
+/-- entrywise positive decider: `yes` iff every entry is real and `> 0`. -/
+theorem positive_yes_iff (A : Mat QI) :
+    positiveV A = .yes ↔ ∀ i j, i < A.r → j < A.c → (A.f i j).im = 0 ∧ 0 < (A.f i j).re := positiveV_yes_iff A
+
+/-- **`is_diagonally_dominant`, verdict `yes`**: square, and in every row the modulus of the diagonal entry exceeds (`is_strict`) resp.
+    is at least the sum of the moduli of the other entries — true moduli over the reals (`rowGap A i = |a_ii| − Σ_{j≠i} |a_ij|`). -/
+theorem diagDominant_yes (A : Mat QI) (strict : Bool) (m : Rat) (hm : 0 < m) (h : diagDominantV A strict m = .yes) :
+    A.r = A.c ∧ ∀ i, i < A.r → (strict = true → 0 < rowGap A i) ∧ 0 ≤ rowGap A i := diagDominantV_yes A strict m hm h
+
+/-- **`is_diagonally_dominant`, verdict `no`**: not square, or some row is not strictly dominant (`is_strict`) resp. not weakly dominant. -/
+theorem diagDominant_no (A : Mat QI) (strict : Bool) (m : Rat) (hm : 0 < m) (h : diagDominantV A strict m = .no) :
+    A.r ≠ A.c ∨ ∃ i, i < A.r ∧ (strict = true → rowGap A i ≤ 0) ∧ (strict = false → rowGap A i < 0) :=
+  diagDominantV_no A strict m hm h
+
+/-- the rational enclosure of a modulus used for diagonal dominance contains the modulus. -/
+theorem modulus_enclosure_sound (a : QI) :
+    (((absEnclosure a).1 : Rat) : ℝ) ≤ ‖a.toC‖ ∧ ‖a.toC‖ ≤ (((absEnclosure a).2 : Rat) : ℝ) := absEnclosure_spec a
+
+/-- **`is_totally_positive`, verdict `yes`** (proved determinant): every minor of the sizes considered — rows and columns selected by
+    order embeddings, i.e. in increasing order — is real and `≥ margin`. -/
+theorem totallyPositive_yes_iff (A : Mat QI) (ss : Option (List Nat)) (m : Rat) :
+    totallyPositiveVL A ss m = .yes ↔
+      ∀ j ∈ tpSizes A ss, ∀ (r : Fin j ↪o Fin A.r) (c : Fin j ↪o Fin A.c),
+        ((Toq.Rank.fnToM A.r A.c A.f).submatrix r c).det.im = 0 ∧
+          ((m : ℚ) : ℝ) ≤ ((Toq.Rank.fnToM A.r A.c A.f).submatrix r c).det.re :=
+  totallyPositiveVL_yes_iff_orderEmb A ss m
+
+/-- **`is_totally_positive`, verdict `no`**: some such minor has real part `≤ −margin` or an imaginary part of modulus `≥ margin`. -/
+theorem totallyPositive_no_iff (A : Mat QI) (ss : Option (List Nat)) (m : Rat) (hm : 0 < m) :
+    totallyPositiveVL A ss m = .no ↔
+      ∃ j ∈ tpSizes A ss, ∃ (r : Fin j ↪o Fin A.r) (c : Fin j ↪o Fin A.c),
+        ((Toq.Rank.fnToM A.r A.c A.f).submatrix r c).det.re ≤ -((m : ℚ) : ℝ) ∨
+          ((m : ℚ) : ℝ) ≤ |((Toq.Rank.fnToM A.r A.c A.f).submatrix r c).det.im| :=
+  totallyPositiveVL_no_iff_orderEmb A ss m hm
+
+/-- the default `sub_sizes` of `is_totally_positive` are `1, …, min(rows, cols)`. -/
+theorem totallyPositive_default_sizes (A : Mat QI) (j : Nat) : j ∈ tpSizes A none ↔ 1 ≤ j ∧ j ≤ min A.r A.c :=
+  mem_tpSizes_none A j
+
+/-- **`is_positive_semidefinite`, verdict `yes`** (self-checked `LDLᴴ` certificate, all sizes): the matrix is square and the complex
+    matrix it denotes is positive semidefinite (in particular Hermitian). -/
+theorem psd_yes_sound (A : Mat QI) (m : Rat) (h : psdV A m = .yes) :
+    A.r = A.c ∧ (Toq.Rank.fnToM A.r A.r A.f).PosSemidef := psdV_yes_sound A m h
+
+/-- **`is_positive_semidefinite`, verdict `no`** (self-checked negative direction): the matrix is not Hermitian by the margin, or it is
+    Hermitian with an eigenvalue below `−μ` for some `μ > 0` (`μ = margin·(1 + scale)`). -/
+theorem psd_no_sound (A : Mat QI) (m : Rat) (hm : 0 < m) (h : psdV A m = .no) :
+    hermitianV A m = .no ∨ (∃ hA : (Toq.Rank.fnToM A.r A.r A.f).IsHermitian, ∃ μ : Rat, 0 < μ ∧
+      ∃ i, hA.eigenvalues i < -((μ : Rat) : ℝ)) := psdV_no_sound A m hm h
+
+/-- **`is_positive_definite`, verdict `yes`**: square and positive definite. -/
+theorem pd_yes_sound (A : Mat QI) (m : Rat) (hm : 0 < m) (h : pdV A m = .yes) :
+    A.r = A.c ∧ (Toq.Rank.fnToM A.r A.r A.f).PosDef := pdV_yes_sound A m hm h
+
+/-- **`is_positive_definite`, verdict `no`**: not square, not exactly Hermitian (the code uses `np.array_equal`), or an eigenvalue
+    below `−μ < 0`. -/
+theorem pd_no_sound (A : Mat QI) (m : Rat) (hm : 0 < m) (h : pdV A m = .no) :
+    A.r ≠ A.c ∨ (∃ i j, i < A.r ∧ j < A.c ∧ A.f i j ≠ (A.f j i).conj) ∨
+      (∃ hA : (Toq.Rank.fnToM A.r A.r A.f).IsHermitian, ∃ μ : Rat, 0 < μ ∧ ∃ i, hA.eigenvalues i < -((μ : Rat) : ℝ)) :=
+  pdV_no_sound A m hm h
+
+/-- the eigenvalue test of the code agrees with a `yes`: all eigenvalues of a positive semidefinite matrix are `≥ −|atol|` for every
+    `atol`. -/
+theorem psd_yes_eigenvalue_test {n : Type} [Fintype n] [DecidableEq n] {A : Matrix n n ℂ} (hA : A.PosSemidef) (atol : ℝ) (i : n) :
+    -|atol| ≤ hA.1.eigenvalues i :=
+  Toq.MatrixSpectral.eigenvalues_ge_neg_of_posSemidef hA (abs_nonneg atol) i
+
+/-- **`is_density`, verdict `yes`**: positive semidefinite with trace exactly one. -/
+theorem density_yes_sound (A : Mat QI) (m : Rat) (h : densityV A m = .yes) :
+    A.r = A.c ∧ (Toq.Rank.fnToM A.r A.r A.f).PosSemidef ∧ (Toq.Rank.fnToM A.r A.r A.f).trace = 1 := densityV_yes_sound A m h
+
+/-- **`is_pure`, verdict `yes`**: a density matrix with `Tr ρ² = 1`, whose largest eigenvalue is `1` (what the code tests) and whose
+    rank is one. -/
+theorem pure_yes_sound (ρ : Mat QI) (m : Rat) (h : pureV ρ m = .yes) :
+    ∃ hρ : (Toq.Rank.fnToM ρ.r ρ.r ρ.f).PosSemidef, (Toq.Rank.fnToM ρ.r ρ.r ρ.f).trace = 1 ∧
+      (Toq.Rank.fnToM ρ.r ρ.r ρ.f * Toq.Rank.fnToM ρ.r ρ.r ρ.f).trace = 1 ∧
+      IsGreatest (Set.range hρ.1.eigenvalues) 1 ∧ (Toq.Rank.fnToM ρ.r ρ.r ρ.f).rank = 1 := pureV_yes_sound ρ m h
+
+/-- **`is_pure`, verdict `no`**: a density matrix all of whose eigenvalues are `≤ 1 − margin`. -/
+theorem pure_no_sound (ρ : Mat QI) (m : Rat) (hm : 0 < m) (h : pureV ρ m = .no) :
+    ∃ hρ : (Toq.Rank.fnToM ρ.r ρ.r ρ.f).PosSemidef, (Toq.Rank.fnToM ρ.r ρ.r ρ.f).trace = 1 ∧
+      ∀ i, hρ.1.eigenvalues i ≤ 1 - ((m : Rat) : ℝ) := pureV_no_sound ρ m hm h
+
+/-- `is_mixed = not is_pure`, and the list form of `is_pure` is the conjunction over the list. -/
+theorem mixed_and_pure_list (ρ : Mat QI) (ρs : List (Mat QI)) (m : Rat) :
+    (mixedV ρ m = .yes ↔ pureV ρ m = .no) ∧ (mixedV ρ m = .no ↔ pureV ρ m = .yes) ∧
+    (pureListV ρs m = .yes ↔ ∀ ρ ∈ ρs, pureV ρ m = .yes) ∧ (pureListV ρs m = .no ↔ ∃ ρ ∈ ρs, pureV ρ m = .no) :=
+  ⟨mixedV_yes_iff ρ m, mixedV_no_iff ρ m, pureListV_yes_iff ρs m, pureListV_no_iff ρs m⟩
+
+/-- **`is_ensemble`, verdict `yes`**: every operator is positive semidefinite and the traces sum to exactly one. -/
+theorem ensemble_yes_sound (ρs : List (Mat QI)) (m : Rat) (h : ensembleV ρs m = .yes) :
+    (∀ ρ ∈ ρs, ρ.r = ρ.c ∧ (Toq.Rank.fnToM ρ.r ρ.r ρ.f).PosSemidef) ∧ ρs.foldl (fun acc ρ => acc + traceQ ρ) 0 = 1 := by
+  obtain ⟨h1, h2⟩ := (ensembleV_yes_iff ρs m).mp h
+  exact ⟨fun ρ hρ => psdV_yes_sound ρ m (h1 ρ hρ), h2⟩
+
+/-- mutually orthogonal decider (at least two vectors): `yes` iff all inner products of distinct vectors vanish; fewer than two
+    vectors is the `ValueError`. -/
+theorem mutuallyOrthogonal_yes_iff (d n : Nat) (vs : Nat → Nat → QI) (m : Rat) (hn : 2 ≤ n) :
+    mutuallyOrthogonalV d n vs m = .ok .yes ↔
+      ∀ i j, i < n → j < n → i ≠ j → sumN d (fun k => (vs i k).conj * vs j k) = 0 :=
+  mutuallyOrthogonalV_yes_iff d n vs m hn
+
+/-- orthonormal decider: `yes` iff the vectors are pairwise orthogonal and `V Vᴴ = I` for the matrix `V` of row vectors. -/
+theorem orthonormal_yes_iff (d n : Nat) (vs : Nat → Nat → QI) (m : Rat) (hn : 2 ≤ n) :
+    orthonormalV d n vs m = .ok .yes ↔
+      (∀ i j, i < n → j < n → i ≠ j → sumN d (fun k => (vs i k).conj * vs j k) = 0) ∧
+      (∀ i j, i < n → j < n → sumN d (fun k => vs i k * (vs j k).conj) = if i = j then 1 else 0) :=
+  orthonormalV_yes_iff d n vs m hn
+
+/-- mutually-unbiased-bases decider (vector `k` is `w_k/√s_k`): `yes` iff the number of vectors is a multiple of `d`, every block of `d`
+    vectors is orthonormal (`|⟨u,v⟩|² = δ`) and `|⟨u,v⟩|² = 1/d` across blocks. -/
+theorem mub_yes_iff (d n : Nat) (w : Nat → Nat → QI) (s : Nat → Rat) (m : Rat) (hd : d ≠ 0) :
+    mubV d n w s true m = .yes ↔ n % d = 0 ∧
+      (∀ i k l, i < n / d → k < d → l < d →
+        normSq (vdot d (w (i * d + k)) (w (i * d + l))) / (s (i * d + k) * s (i * d + l)) = if k = l then 1 else 0) ∧
+      (∀ i j k l, i < n / d → j < n / d → i < j → k < d → l < d →
+        normSq (vdot d (w (i * d + k)) (w (j * d + l))) / (s (i * d + k) * s (j * d + l)) = 1 / (d : Rat)) :=
+  mubV_yes_iff d n w s m hd
+
+/-- **`is_unextendible_product_basis`, verdict `no`** (guards passed: all vectors exactly product, mutually orthogonal): there is a
+    distribution of the (zero-padded) vectors over the parties — every party served when `surj` — such that every party has a non-zero
+    local vector annihilated by all local factors it received. -/
+theorem upb_no_iff (dims : List Nat) (n : Nat) (vs : Nat → Nat → QI) (surj : Bool) (m : Rat)
+    (hprod : ∀ k, k < n → isProductExact dims (vs k) = true)
+    (hgram : 2 ≤ n → eqV (gramOffDiag (dims.foldl (· * ·) 1) n vs) (zeroMat n n) m = .yes) :
+    upbV dims n vs surj m = .ok .no ↔ ∃ asg : List Nat, asg.length = max n dims.length ∧ (∀ x ∈ asg, x < dims.length) ∧
+      (surj = true → ∀ i, i < dims.length → i ∈ asg) ∧
+      ∀ i, i < dims.length → ∃ y : Fin (dims.getD i 1) → ℂ, y ≠ 0 ∧
+        ∀ k, k < max n dims.length → asg.getD k 0 = i → ∑ t, (upbFactor dims n vs k i t.val).toC * y t = 0 :=
+  upbV_no_iff dims n vs surj m hprod hgram
+
+/-- … and when the guards pass the verdict is `yes` or `no`, never `unknown`. -/
+theorem upb_decided (dims : List Nat) (n : Nat) (vs : Nat → Nat → QI) (surj : Bool) (m : Rat)
+    (hprod : ∀ k, k < n → isProductExact dims (vs k) = true)
+    (hgram : 2 ≤ n → eqV (gramOffDiag (dims.foldl (· * ·) 1) n vs) (zeroMat n n) m = .yes) :
+    upbV dims n vs surj m = .ok .no ∨ upbV dims n vs surj m = .ok .yes :=
+  upbV_guards_decided dims n vs surj m hprod hgram
+
+/-- **the UPB verdict does not depend on the order in which the vectors are listed** (full equality of results, including the
+    rejections), for every permutation `σ` of the positions `0 … n−1` with inverse `τ`. -/
+theorem upb_order_independent (dims : List Nat) (n : Nat) (vs : Nat → Nat → QI) (surj : Bool) (m : Rat) (σ τ : Nat → Nat)
+    (hσ : ∀ k, k < n → σ k < n) (hτ : ∀ k, k < n → τ k < n) (hτσ : ∀ k, k < n → τ (σ k) = k) (hστ : ∀ k, k < n → σ (τ k) = k) :
+    upbV dims n (fun k => vs (σ k)) surj m = upbV dims n vs surj m :=
+  upbV_perm dims n vs surj m σ τ hσ hτ hτσ hστ
+
+/-- searching only the distributions that serve every party (as the Python code does, through set partitions) or all distributions
+    gives the same verdict when every local dimension is at least 2. -/
+theorem upb_surjective_search_suffices (dims : List Nat) (n : Nat) (vs : Nat → Nat → QI) (m : Rat)
+    (hd : ∀ i, i < dims.length → 2 ≤ dims.getD i 1) : upbV dims n vs true m = upbV dims n vs false m :=
+  upbV_surj_irrelevant dims n vs m hd
+
+/-- the distributions searched are all maps from the `n` positions to the `m` parties. -/
+theorem upb_assignments_complete (m n : Nat) (asg : List Nat) :
+    asg ∈ assignments n m ↔ asg.length = n ∧ ∀ x ∈ asg, x < m := mem_assignments_iff m n asg
+
+/-! ## Part 7 — helper operations, continued -/
+
+/-- **n-ary associativity**: the left fold of `tensor([A_1, …, A_n])` splits at every position,
+    `A_1 ⊗ … ⊗ A_n = (A_1 ⊗ … ⊗ A_k) ⊗ (A_{k+1} ⊗ … ⊗ A_n)`. -/
+theorem tensor_list_split {α : Type} [Semigroup α] (a : Mat α) (l1 : List (Mat α)) (b : Mat α) (l2 : List (Mat α)) :
+    kronFold a (l1 ++ b :: l2) = kron (kronFold a l1) (kronFold b l2) := kronFold_append a l1 b l2
+
+/-- the list form of `tensor` on a non-empty list is that left fold (lengths 1, 2 and `≥ 3` are separate branches of the code). -/
+theorem tensor_list_eq_fold {α : Type} [Mul α] (a : Mat α) (l : List (Mat α)) : tensorList (a :: l) = .mat (kronFold a l) :=
+  tensorList_cons a l
+
+/-- `tensor(A, 0) = np.eye(1)` is the unit of the Kronecker product. -/
+theorem tensor_power_zero_unit {α : Type} [MulOneClass α] (A : Mat α) :
+    ((kron eye1 A).r = A.r ∧ (kron eye1 A).c = A.c ∧ ∀ i j, i < A.r → j < A.c → (kron eye1 A).f i j = A.f i j) ∧
+    ((kron A eye1).r = A.r ∧ (kron A eye1).c = A.c ∧ ∀ i j, (kron A eye1).f i j = A.f i j) :=
+  ⟨kron_eye1_left A, kron_eye1_right A⟩
+
+/-- `unvec` raises (NumPy cannot reshape) exactly when the requested shape — by default `int(√size)` squared — does not have `size`
+    entries. -/
+theorem unvec_reject_iff {α : Type} (v : Nat → α) (size : Nat) (shape : Option (Nat × Nat)) :
+    unvec v size shape = none ↔
+      (match shape with | none => Nat.sqrt size * Nat.sqrt size | some s => s.1 * s.2) ≠ size :=
+  unvec_eq_none_iff v size shape
+
+/-- `majorizes` with its tolerance term (`ctb` starts at `tol = −‖a‖·eps^{3/4}`): true iff every prefix sum of the sorted padded `a`
+    is at least `tol` plus that of `b`. -/
+theorem majorizes_tol_iff (a b : List Rat) (tol : Rat) :
+    majorizesTol a b tol = true ↔ ∀ k, k < max a.length b.length →
+      tol + prefixSum (padTo (max a.length b.length) (sortDesc b)) (k + 1)
+        ≤ prefixSum (padTo (max a.length b.length) (sortDesc a)) (k + 1) :=
+  majorizesTol_iff a b tol
+
+/-- **the null space of the stacked system of `commutant` is the commutant**: `x` is annihilated by `[A_g ⊗ 1 − 1 ⊗ A_gᵀ]_g` iff its
+    row-major reshaping `X` (`X i j = x (i·dim + j)`, as `reshape((dim, dim))` does) commutes with EVERY generator. -/
+theorem commutant_kernel_iff (dim : Nat) (gens : List (Mat QI)) (h : ∀ A ∈ gens, A.r = dim ∧ A.c = dim)
+    (x : Fin (dim * dim) → ℂ) :
+    Matrix.mulVec (commStackM dim gens) x = 0
+      ↔ ∀ A ∈ gens, Toq.Rank.fnToM dim dim A.f * unflat dim x = unflat dim x * Toq.Rank.fnToM dim dim A.f :=
+  commStack_mulVec_eq_zero_iff dim gens h x
+
+/-- … so the reshaped null space is exactly the commutant `{X | ∀ g, g X = X g}` (the centralizer of the generators), -/
+theorem commutant_nullspace_is_commutant (dim : Nat) (gens : List (Mat QI)) (h : ∀ A ∈ gens, A.r = dim ∧ A.c = dim) :
+    (LinearMap.ker (commStackM dim gens).mulVecLin).map (unflatEquiv dim : (Fin (dim * dim) → ℂ) →ₗ[ℂ] _)
+      = commutantSubmodule dim gens ∧
+    (commutantSubmodule dim gens : Set (Matrix (Fin dim) (Fin dim) ℂ)) = Set.centralizer (genSet dim gens) :=
+  ⟨map_ker_commStack_eq dim gens h, commutantSubmodule_eq_centralizer dim gens⟩
+
+/-- **… and `commutantDim` is its dimension**: the number of basis matrices `commutant` must return. -/
+theorem commutantDim_eq_finrank (dim : Nat) (gens : List (Mat QI)) (h : ∀ A ∈ gens, A.r = dim ∧ A.c = dim) :
+    commutantDim dim gens = Module.finrank ℂ (commutantSubmodule dim gens) :=
+  commutantDim_eq_finrank_commutant dim gens h
+
+/-- the commutant contains the identity and lives in the `dim²`-dimensional matrix space; it only depends on the SET of generators
+    and shrinks when generators are added. -/
+theorem commutantDim_bounds (dim : Nat) (gens gens' : List (Mat QI)) (h : ∀ A ∈ gens, A.r = dim ∧ A.c = dim)
+    (h' : ∀ A ∈ gens', A.r = dim ∧ A.c = dim) :
+    commutantDim dim gens ≤ dim * dim ∧ (1 ≤ dim → 1 ≤ commutantDim dim gens) ∧ commutantDim dim [] = dim * dim ∧
+    ((∀ A ∈ gens, A ∈ gens') → commutantDim dim gens' ≤ commutantDim dim gens) :=
+  ⟨commutantDim_le dim gens, one_le_commutantDim dim gens h, commutantDim_nil dim, commutantDim_anti dim gens gens' h h'⟩
+
+/-- a Gram matrix `G_ij = ⟨v_i, v_j⟩` is positive semidefinite (so `vectors_from_gram_matrix ∘ vectors_to_gram_matrix` always runs on
+    PSD input). -/
+theorem gram_posSemidef {k d : Type} [Fintype d] [Fintype k] (v : k → d → ℂ) :
+    (Toq.MatrixSpectral.gramMatrix v).PosSemidef := Toq.MatrixSpectral.gramMatrix_posSemidef v
+
+/-- **Round trip, eigen-branch** (the code after toqito commits b44bccf / 4c1ddd1: `eigh`, `B = V·√D`, QR of `Bᴴ`, phases): with
+    `G = B Bᴴ`, `Bᴴ = Q T`, `QᴴQ = 1` and unit-modulus phases `p`, the matrix `L = (diag(conj p)·T)ᴴ` satisfies `L Lᴴ = G`; the code
+    returns the conjugated rows of `L`, whose Gram matrix is `G` by `gram_of_conj_rows` — the same final step as the Cholesky branch.
+    (`G = B Bᴴ` needs ORTHONORMAL eigenvectors: `np.linalg.eig`, used before, does not return them for a repeated eigenvalue.) -/
+theorem gram_eig_branch_factor {n m l : Type} [Fintype n] [Fintype m] [Fintype l] [DecidableEq l] {R : Type} [CommRing R] [StarRing R]
+    (B : Matrix n m R) (Q : Matrix m l R) (T : Matrix l n R) (p : l → R) (hQ : Q.conjTranspose * Q = 1)
+    (hB : B.conjTranspose = Q * T) (hp : ∀ i, p i * star (p i) = 1) :
+    (Matrix.diagonal (fun i => star (p i)) * T).conjTranspose * ((Matrix.diagonal (fun i => star (p i)) * T).conjTranspose).conjTranspose
+      = B * B.conjTranspose :=
+  Toq.MatrixInv.gram_eig_branch_factor B Q T p hQ hB hp
+
+/-- the spectral form behind `B = V·√D`: if `G = V diag(d) Vᴴ` and `d_k = conj(s_k)·s_k` then the vectors `w_i = s · conj(V[i,:])` have
+    Gram matrix `G` (pure algebra; this was the literal form of the eigen-branch before commit 4c1ddd1). -/
+theorem gram_eig_roundtrip {R ι κ : Type} [CommRing R] [StarRing R] [Fintype κ] (G : ι → ι → R) (V : ι → κ → R) (dd s : κ → R)
+    (hG : ∀ i j, G i j = ∑ k, V i k * dd k * star (V j k)) (hd : ∀ k, dd k = star (s k) * s k) (i j : ι) :
+    ∑ k, star (s k * star (V i k)) * (s k * star (V j k)) = G i j :=
+  Toq.MatrixSpectral.gram_eig_roundtrip G V dd s hG hd i j
+
+/-- **the Frobenius shortcut of `kp_norm`** (`k ≥ min(shape)`, `p = 2`): the Frobenius norm is the 2-norm of all singular values
+    (`singularValue A k = √(k-th eigenvalue of Aᴴ A)`), -/
+theorem frobenius_eq_singular_values {m n : Type} [Fintype m] [Fintype n] [DecidableEq n] (A : Matrix m n ℂ) :
+    Real.sqrt (∑ i, ∑ j, ‖A i j‖ ^ 2) = Real.sqrt (∑ k, Toq.MatrixSpectral.singularValue A k ^ 2) :=
+  Toq.MatrixSpectral.frobenius_eq_two_norm_singularValues A
+
+/-- … of which exactly `rank A ≤ min(shape)` are non-zero (so summing over all of them is summing over the `min(shape)` values NumPy
+    returns, and `k` larger than their number changes nothing). -/
+theorem nonzero_singular_values_eq_rank {m n : Type} [Fintype m] [Fintype n] [DecidableEq n] (A : Matrix m n ℂ) :
+    Fintype.card {k // Toq.MatrixSpectral.singularValue A k ≠ 0} = A.rank ∧
+    Fintype.card {k // Toq.MatrixSpectral.singularValue A k ≠ 0} ≤ min (Fintype.card m) (Fintype.card n) :=
+  ⟨Toq.MatrixSpectral.card_nonzero_singularValues_eq_rank A, Toq.MatrixSpectral.card_nonzero_singularValues_le A⟩
+
+/-- **singular values of a Hermitian matrix are the moduli of its eigenvalues** (as multisets) — the fact behind `kp_norm` / `trace_norm`
+    on Hermitian input with eigenvalues of both signs; -/
+theorem singular_values_hermitian {n : Type} [Fintype n] [DecidableEq n] (A : Matrix n n ℂ) (hA : A.IsHermitian) :
+    Multiset.map (Toq.MatrixSpectral.singularValue A) Finset.univ.val = Multiset.map (fun i => |hA.eigenvalues i|) Finset.univ.val :=
+  Toq.MatrixSpectral.singularValue_multiset_hermitian A hA
+
+/-- hence the trace norm (sum of the singular values) of a Hermitian matrix is `Σ |λ_i|`, of a positive semidefinite matrix its trace,
+    of a density matrix `1`. -/
+theorem trace_norm_hermitian {n : Type} [Fintype n] [DecidableEq n] (A : Matrix n n ℂ) :
+    (∀ hA : A.IsHermitian, ∑ k, Toq.MatrixSpectral.singularValue A k = ∑ i, |hA.eigenvalues i|) ∧
+    (A.PosSemidef → ∑ k, Toq.MatrixSpectral.singularValue A k = (A.trace).re) ∧
+    (A.PosSemidef → A.trace = 1 → ∑ k, Toq.MatrixSpectral.singularValue A k = 1) :=
+  ⟨fun hA => Toq.MatrixSpectral.traceNorm_hermitian A hA, fun h => Toq.MatrixSpectral.traceNorm_posSemidef A h,
+    fun h ht => Toq.MatrixSpectral.traceNorm_density A h ht⟩
+
+
+/-! ## Part 8 — every predicate's defining relation is invariant under the transformations the harness applies
+
+Permutation similarity `P A Pᵀ` is `A.submatrix σ σ`, left permutation `P A` is `A.submatrix σ id` (`perm_similarity_is_submatrix`);
+"phase" is conjugation by `diagonal d` with unit-modulus `d` (a unitary, `phase_is_unitary`); "conj" is `A.map star`. -/
+
+section invariance2
+open Matrix
+variable {n : Type} [Fintype n] [DecidableEq n] {R : Type} [CommRing R] [StarRing R]
+
+/-- permutation matrices act as reindexings and are unitary; diagonal phase matrices are unitary and act entrywise. -/
+theorem perm_similarity_is_submatrix (σ : n ≃ n) (A : Matrix n n R) (d : n → R) (hd : ∀ i, star (d i) * d i = 1) :
+    σ.toPEquiv.toMatrix * A * (σ.toPEquiv.toMatrix)ᵀ = A.submatrix σ σ ∧ σ.toPEquiv.toMatrix * A = A.submatrix σ id ∧
+    ((diagonal d)ᴴ * diagonal d = 1 ∧ diagonal d * (diagonal d)ᴴ = 1) ∧
+    (∀ i j, (diagonal d * A * (diagonal d)ᴴ) i j = d i * A i j * star (d j)) :=
+  ⟨Toq.MatrixInv.perm_similarity_eq_submatrix σ A, Toq.MatrixInv.perm_left_eq_submatrix σ A,
+    Toq.MatrixInv.phase_unitary d hd, Toq.MatrixInv.phase_conj_apply d A⟩
+
+/-- **Hermitian** ⇔ after: permutation similarity, transposition, entrywise conjugation, negation, unitary conjugation (phases,
+    permutations, rational unitaries); and scaling by a real scalar keeps it. -/
+theorem hermitian_invariant (A U : Matrix n n R) (σ : n ≃ n) (c : R) (hU : Uᴴ * U = 1) (hc : star c = c) :
+    ((A.submatrix σ σ).IsHermitian ↔ A.IsHermitian) ∧ (Aᵀ.IsHermitian ↔ A.IsHermitian) ∧
+    ((A.map star).IsHermitian ↔ A.IsHermitian) ∧ ((-A).IsHermitian ↔ A.IsHermitian) ∧
+    ((U * A * Uᴴ).IsHermitian ↔ A.IsHermitian) ∧ (A.IsHermitian → (c • A).IsHermitian) :=
+  ⟨Toq.MatrixInv.herm_submatrix_iff A σ, Toq.MatrixInv.herm_transpose_iff A, Toq.MatrixInv.herm_map_star_iff A,
+    Toq.MatrixInv.herm_neg_iff A, Toq.MatrixInv.herm_conj_iff A U hU, Toq.MatrixInv.herm_smul A c hc⟩
+
+/-- **anti-Hermitian** (`Aᴴ = −A`): the same transformations. -/
+theorem antiHermitian_invariant (A U : Matrix n n R) (σ : n ≃ n) (c : R) (hU : Uᴴ * U = 1) (hc : star c = c) :
+    ((A.submatrix σ σ)ᴴ = -(A.submatrix σ σ) ↔ Aᴴ = -A) ∧ ((Aᵀ)ᴴ = -Aᵀ ↔ Aᴴ = -A) ∧
+    ((A.map star)ᴴ = -(A.map star) ↔ Aᴴ = -A) ∧ ((-A)ᴴ = -(-A) ↔ Aᴴ = -A) ∧
+    ((U * A * Uᴴ)ᴴ = -(U * A * Uᴴ) ↔ Aᴴ = -A) ∧ (Aᴴ = -A → (c • A)ᴴ = -(c • A)) :=
+  ⟨Toq.MatrixInv.antiherm_submatrix_iff A σ, Toq.MatrixInv.antiherm_transpose_iff A, Toq.MatrixInv.antiherm_map_star_iff A,
+    Toq.MatrixInv.antiherm_neg_iff A, Toq.MatrixInv.antiherm_conj_iff A U hU, Toq.MatrixInv.antiherm_smul A c hc⟩
+
+/-- **symmetric** (`Aᵀ = A`): permutation similarity, conjugation, negation (iff), scaling. -/
+theorem symmetric_invariant (A : Matrix n n R) (σ : n ≃ n) (c : R) :
+    ((A.submatrix σ σ)ᵀ = A.submatrix σ σ ↔ Aᵀ = A) ∧ ((A.map star)ᵀ = A.map star ↔ Aᵀ = A) ∧
+    ((-A)ᵀ = -A ↔ Aᵀ = A) ∧ (Aᵀ = A → (c • A)ᵀ = c • A) :=
+  ⟨Toq.MatrixInv.symm_submatrix_iff A σ, Toq.MatrixInv.symm_map_star_iff A, Toq.MatrixInv.symm_neg_iff A,
+    Toq.MatrixInv.symm_smul A c⟩
+
+/-- **normal** (`A Aᴴ = Aᴴ A`): permutation similarity, transposition, conjugation, negation, unitary conjugation, adding a multiple of
+    the identity (all iff), and scaling by any scalar. -/
+theorem normal_invariant (A U : Matrix n n R) (σ : n ≃ n) (c : R) (hU : Uᴴ * U = 1) :
+    (A.submatrix σ σ * (A.submatrix σ σ)ᴴ = (A.submatrix σ σ)ᴴ * A.submatrix σ σ ↔ A * Aᴴ = Aᴴ * A) ∧
+    (Aᵀ * (Aᵀ)ᴴ = (Aᵀ)ᴴ * Aᵀ ↔ A * Aᴴ = Aᴴ * A) ∧
+    (A.map star * (A.map star)ᴴ = (A.map star)ᴴ * A.map star ↔ A * Aᴴ = Aᴴ * A) ∧
+    ((-A) * (-A)ᴴ = (-A)ᴴ * (-A) ↔ A * Aᴴ = Aᴴ * A) ∧
+    ((U * A * Uᴴ) * (U * A * Uᴴ)ᴴ = (U * A * Uᴴ)ᴴ * (U * A * Uᴴ) ↔ A * Aᴴ = Aᴴ * A) ∧
+    ((A + c • 1) * (A + c • 1)ᴴ = (A + c • 1)ᴴ * (A + c • 1) ↔ A * Aᴴ = Aᴴ * A) ∧
+    (A * Aᴴ = Aᴴ * A → (c • A) * (c • A)ᴴ = (c • A)ᴴ * (c • A)) :=
+  ⟨Toq.MatrixInv.normal_submatrix_iff A σ, Toq.MatrixInv.normal_transpose_iff A, Toq.MatrixInv.normal_map_star_iff A,
+    Toq.MatrixInv.normal_neg_iff A, Toq.MatrixInv.normal_conj_iff A U hU, Toq.MatrixInv.normal_add_smul_one_iff A c,
+    Toq.MatrixInv.normal_smul A c⟩
+
+/-- **unitary** (`Uᴴ U = 1 ∧ U Uᴴ = 1`): permutation similarity, transposition, conjugation, negation, conjugation by and left
+    multiplication with a unitary `V` (all iff). -/
+theorem unitary_invariant (U V : Matrix n n R) (σ : n ≃ n) (hV : Vᴴ * V = 1 ∧ V * Vᴴ = 1) :
+    (((U.submatrix σ σ)ᴴ * U.submatrix σ σ = 1 ∧ U.submatrix σ σ * (U.submatrix σ σ)ᴴ = 1) ↔ (Uᴴ * U = 1 ∧ U * Uᴴ = 1)) ∧
+    (((Uᵀ)ᴴ * Uᵀ = 1 ∧ Uᵀ * (Uᵀ)ᴴ = 1) ↔ (Uᴴ * U = 1 ∧ U * Uᴴ = 1)) ∧
+    (((U.map star)ᴴ * U.map star = 1 ∧ U.map star * (U.map star)ᴴ = 1) ↔ (Uᴴ * U = 1 ∧ U * Uᴴ = 1)) ∧
+    (((-U)ᴴ * (-U) = 1 ∧ (-U) * (-U)ᴴ = 1) ↔ (Uᴴ * U = 1 ∧ U * Uᴴ = 1)) ∧
+    (((V * U * Vᴴ)ᴴ * (V * U * Vᴴ) = 1 ∧ (V * U * Vᴴ) * (V * U * Vᴴ)ᴴ = 1) ↔ (Uᴴ * U = 1 ∧ U * Uᴴ = 1)) ∧
+    (((V * U)ᴴ * (V * U) = 1 ∧ (V * U) * (V * U)ᴴ = 1) ↔ (Uᴴ * U = 1 ∧ U * Uᴴ = 1)) :=
+  ⟨Toq.MatrixInv.unitary_submatrix_iff U σ, Toq.MatrixInv.unitary_transpose_iff U, Toq.MatrixInv.unitary_map_star_iff U,
+    Toq.MatrixInv.unitary_neg_iff U, Toq.MatrixInv.unitary_conj_iff U V hV, Toq.MatrixInv.unitary_mul_left_iff U V hV⟩
+
+/-- **pseudo-unitary** (`Aᴴ J A = J`): left / right multiplication by a `J`-isometry `W`, conjugation (real `J`), negation. -/
+theorem pseudoUnitary_invariant (J A W : Matrix n n R) (hW : Wᴴ * J * W = J) (hJ : J.map star = J) (hA : Aᴴ * J * A = J) :
+    (W * A)ᴴ * J * (W * A) = J ∧ (A * W)ᴴ * J * (A * W) = J ∧ (A.map star)ᴴ * J * A.map star = J ∧ (-A)ᴴ * J * (-A) = J :=
+  ⟨Toq.MatrixInv.pseudoU_mul_left J A W hW hA, Toq.MatrixInv.pseudoU_mul_right J A W hW hA,
+    Toq.MatrixInv.pseudoU_map_star J A hJ hA, Toq.MatrixInv.pseudoU_neg J A hA⟩
+
+/-- block-diagonal unitaries `U ⊕ V` are isometries of the signature `1_p ⊕ (−1_q)` (the harness's `t_block_unitary`). -/
+theorem block_unitary_is_signature_isometry {p q : Type} [Fintype p] [DecidableEq p] [Fintype q] [DecidableEq q]
+    (U : Matrix p p R) (V : Matrix q q R) (hU : Uᴴ * U = 1) (hV : Vᴴ * V = 1) :
+    (fromBlocks U 0 0 V)ᴴ * fromBlocks 1 0 0 (-1) * fromBlocks U 0 0 V = fromBlocks 1 0 0 (-1) :=
+  Toq.MatrixInv.block_unitary_isometry U V hU hV
+
+/-- **pseudo-Hermitian**: `η H η⁻¹ = Hᴴ` is `η H = Hᴴ η`; it is invariant (iff) under simultaneous unitary congruence of `η` and `H`,
+    also with a rescaled signature, and under real scaling of `H`. -/
+theorem pseudoHermitian_invariant (η ηinv H U : Matrix n n R) (c : R) (h1 : η * ηinv = 1) (h2 : ηinv * η = 1) (hU : Uᴴ * U = 1) :
+    (η * H = Hᴴ * η ↔ η * H * ηinv = Hᴴ) ∧
+    ((U * η * Uᴴ) * (U * H * Uᴴ) = (U * H * Uᴴ)ᴴ * (U * η * Uᴴ) ↔ η * H = Hᴴ * η) ∧
+    (η * H = Hᴴ * η → (c • (U * η * Uᴴ)) * (U * H * Uᴴ) = (U * H * Uᴴ)ᴴ * (c • (U * η * Uᴴ))) ∧
+    (star c = c → η * H = Hᴴ * η → η * (c • H) = (c • H)ᴴ * η) :=
+  ⟨Toq.MatrixInv.pseudoH_iff η ηinv H h1 h2, Toq.MatrixInv.pseudoH_congr_iff η H U hU,
+    Toq.MatrixInv.pseudoH_congr_smul η H U c hU, Toq.MatrixInv.pseudoH_smul_H η H c⟩
+
+/-- **idempotent / projection** (`A A = A`): permutation similarity, transposition, conjugation, unitary conjugation, similarity
+    `S A S⁻¹` (all iff). -/
+theorem idempotent_invariant (A U S Sinv : Matrix n n R) (σ : n ≃ n) (hU : Uᴴ * U = 1) (h1 : Sinv * S = 1) (h2 : S * Sinv = 1) :
+    (A.submatrix σ σ * A.submatrix σ σ = A.submatrix σ σ ↔ A * A = A) ∧ (Aᵀ * Aᵀ = Aᵀ ↔ A * A = A) ∧
+    (A.map star * A.map star = A.map star ↔ A * A = A) ∧
+    ((U * A * Uᴴ) * (U * A * Uᴴ) = U * A * Uᴴ ↔ A * A = A) ∧ ((S * A * Sinv) * (S * A * Sinv) = S * A * Sinv ↔ A * A = A) :=
+  ⟨Toq.MatrixInv.idem_submatrix_iff A σ, Toq.MatrixInv.idem_transpose_iff A, Toq.MatrixInv.idem_map_star_iff A,
+    Toq.MatrixInv.idem_conj_iff A U hU, Toq.MatrixInv.idem_similarity_iff A S Sinv h1 h2⟩
+
+/-- **identity**: only the identity is conjugate to the identity; reindexing, transposing, conjugating the identity gives the identity. -/
+theorem identity_invariant (A U : Matrix n n R) (σ : n ≃ n) (hU : Uᴴ * U = 1) :
+    (U * A * Uᴴ = 1 ↔ A = 1) ∧ (1 : Matrix n n R).submatrix σ σ = 1 ∧ (1 : Matrix n n R)ᵀ = 1 ∧ (1 : Matrix n n R).map star = 1 :=
+  ⟨Toq.MatrixInv.conj_eq_one_iff A U hU, Toq.MatrixInv.one_submatrix σ, Toq.MatrixInv.one_transpose, Toq.MatrixInv.one_map_star⟩
+
+/-- **diagonal** (all off-diagonal entries zero): permutation similarity, transposition, conjugation (iff), negation, scaling, phase
+    conjugation. -/
+theorem diagonal_invariant (A : Matrix n n R) (σ : n ≃ n) (c : R) (d : n → R) :
+    ((∀ i j, i ≠ j → A.submatrix σ σ i j = 0) ↔ ∀ i j, i ≠ j → A i j = 0) ∧
+    ((∀ i j, i ≠ j → Aᵀ i j = 0) ↔ ∀ i j, i ≠ j → A i j = 0) ∧
+    ((∀ i j, i ≠ j → A.map star i j = 0) ↔ ∀ i j, i ≠ j → A i j = 0) ∧
+    ((∀ i j, i ≠ j → A i j = 0) → ∀ i j, i ≠ j → (-A) i j = 0) ∧
+    ((∀ i j, i ≠ j → A i j = 0) → ∀ i j, i ≠ j → (c • A) i j = 0) ∧
+    ((∀ i j, i ≠ j → A i j = 0) → ∀ i j, i ≠ j → (diagonal d * A * (diagonal d)ᴴ) i j = 0) :=
+  ⟨Toq.MatrixInv.diag_submatrix_iff A σ, Toq.MatrixInv.diag_transpose_iff A, Toq.MatrixInv.diag_map_star_iff A,
+    Toq.MatrixInv.diag_neg A, Toq.MatrixInv.diag_smul A c, Toq.MatrixInv.diag_phase A d⟩
+
+/-- **commuting pair**: simultaneous unitary conjugation and simultaneous transposition (iff); the relation is symmetric. -/
+theorem commuting_invariant (A B U : Matrix n n R) (hU : Uᴴ * U = 1) :
+    ((U * A * Uᴴ) * (U * B * Uᴴ) = (U * B * Uᴴ) * (U * A * Uᴴ) ↔ A * B = B * A) ∧ (Aᵀ * Bᵀ = Bᵀ * Aᵀ ↔ A * B = B * A) ∧
+    (A * B = B * A → B * A = A * B) :=
+  ⟨Toq.MatrixInv.comm_conj_iff A B U hU, Toq.MatrixInv.comm_transpose_iff A B, Toq.MatrixInv.comm_swap A B⟩
+
+/-- **permutation matrix** (entries 0/1, all row and column sums 1): transposition; reindexing rows and columns by any two
+    permutations (iff; covers left multiplication and similarity); the matrix of a permutation is one. -/
+theorem permutation_invariant (A : Matrix n n R) (σ τ : n ≃ n) :
+    (((∀ i j, A i j = 0 ∨ A i j = 1) ∧ (∀ i, ∑ j, A i j = 1) ∧ ∀ j, ∑ i, A i j = 1) →
+      (∀ i j, Aᵀ i j = 0 ∨ Aᵀ i j = 1) ∧ (∀ i, ∑ j, Aᵀ i j = 1) ∧ ∀ j, ∑ i, Aᵀ i j = 1) ∧
+    (((∀ i j, A.submatrix σ τ i j = 0 ∨ A.submatrix σ τ i j = 1) ∧ (∀ i, ∑ j, A.submatrix σ τ i j = 1) ∧
+        ∀ j, ∑ i, A.submatrix σ τ i j = 1) ↔
+      (∀ i j, A i j = 0 ∨ A i j = 1) ∧ (∀ i, ∑ j, A i j = 1) ∧ ∀ j, ∑ i, A i j = 1) ∧
+    ((∀ i j, (σ.toPEquiv.toMatrix : Matrix n n R) i j = 0 ∨ (σ.toPEquiv.toMatrix : Matrix n n R) i j = 1) ∧
+      (∀ i, ∑ j, (σ.toPEquiv.toMatrix : Matrix n n R) i j = 1) ∧ ∀ j, ∑ i, (σ.toPEquiv.toMatrix : Matrix n n R) i j = 1) :=
+  ⟨Toq.MatrixInv.permMat_transpose A, Toq.MatrixInv.permMat_submatrix_iff A σ τ, Toq.MatrixInv.permMat_of_equiv σ⟩
+
+/-- **circulant** (shift-invariant entries over a finite cyclic index group): transposition, conjugation, negation, scaling, adding a
+    multiple of the identity, and a cyclic shift of rows and columns — which even leaves the matrix unchanged. -/
+theorem circulant_invariant {G : Type} [Fintype G] [DecidableEq G] [AddCommGroup G] (A : Matrix G G R) (c : R) (s : G)
+    (hA : ∀ i j k : G, A (i + k) (j + k) = A i j) :
+    (∀ i j k : G, Aᵀ (i + k) (j + k) = Aᵀ i j) ∧ (∀ i j k : G, A.map star (i + k) (j + k) = A.map star i j) ∧
+    (∀ i j k : G, (-A) (i + k) (j + k) = (-A) i j) ∧ (∀ i j k : G, (c • A) (i + k) (j + k) = (c • A) i j) ∧
+    (∀ i j k : G, (A + c • 1) (i + k) (j + k) = (A + c • 1) i j) ∧ A.submatrix (· + s) (· + s) = A :=
+  ⟨Toq.MatrixInv.circ_transpose A hA, Toq.MatrixInv.circ_map_star A hA, Toq.MatrixInv.circ_neg A hA,
+    Toq.MatrixInv.circ_smul A c hA, Toq.MatrixInv.circ_add_smul_one A c hA, Toq.MatrixInv.circ_shift_eq A s hA⟩
+
+end invariance2
+
+section invarianceOrder
+open Matrix
+variable {n : Type} [Fintype n] [DecidableEq n]
+
+/-- **positive semidefinite** (over `ℂ`): permutation similarity, conjugation, unitary conjugation (iff), transposition, scaling by a real
+    `c ≥ 0`. -/
+theorem psd_invariant (A U : Matrix n n ℂ) (σ : n ≃ n) (c : ℝ) (hU : Uᴴ * U = 1) (hc : 0 ≤ c) :
+    ((A.submatrix σ σ).PosSemidef ↔ A.PosSemidef) ∧ ((A.map star).PosSemidef ↔ A.PosSemidef) ∧
+    ((U * A * Uᴴ).PosSemidef ↔ A.PosSemidef) ∧ (A.PosSemidef → Aᵀ.PosSemidef) ∧ (A.PosSemidef → (c • A).PosSemidef) :=
+  ⟨Toq.MatrixInv.psd_submatrix_iff A σ, Toq.MatrixInv.psd_map_star_iff A, Toq.MatrixInv.psd_conj_iff A U hU,
+    Toq.MatrixInv.psd_transpose A, Toq.MatrixInv.psd_smul_real A c hc⟩
+
+/-- **positive definite**: the same with `c > 0`. -/
+theorem pd_invariant (A U : Matrix n n ℂ) (σ : n ≃ n) (c : ℝ) (hU : Uᴴ * U = 1) (hc : 0 < c) :
+    ((A.submatrix σ σ).PosDef ↔ A.PosDef) ∧ ((A.map star).PosDef ↔ A.PosDef) ∧
+    ((U * A * Uᴴ).PosDef ↔ A.PosDef) ∧ (A.PosDef → Aᵀ.PosDef) ∧ (A.PosDef → (c • A).PosDef) :=
+  ⟨Toq.MatrixInv.pd_submatrix_iff A σ, Toq.MatrixInv.pd_map_star_iff A, Toq.MatrixInv.pd_conj_iff A U hU,
+    Toq.MatrixInv.pd_transpose A, Toq.MatrixInv.pd_smul_real A c hc⟩
+
+/-- **density matrix** (PSD, trace one): permutation similarity, unitary conjugation, transposition (iff), conjugation. -/
+theorem density_invariant (A U : Matrix n n ℂ) (σ : n ≃ n) (hU : Uᴴ * U = 1) :
+    (((A.submatrix σ σ).PosSemidef ∧ (A.submatrix σ σ).trace = 1) ↔ (A.PosSemidef ∧ A.trace = 1)) ∧
+    (((U * A * Uᴴ).PosSemidef ∧ (U * A * Uᴴ).trace = 1) ↔ (A.PosSemidef ∧ A.trace = 1)) ∧
+    ((Aᵀ.PosSemidef ∧ Aᵀ.trace = 1) ↔ (A.PosSemidef ∧ A.trace = 1)) ∧
+    ((A.PosSemidef ∧ A.trace = 1) → (A.map star).PosSemidef ∧ (A.map star).trace = 1) :=
+  ⟨Toq.MatrixInv.density_submatrix_iff A σ, Toq.MatrixInv.density_conj_iff A U hU, Toq.MatrixInv.density_transpose_iff A,
+    Toq.MatrixInv.density_map_star A⟩
+
+/-- **pure state** (density matrix with `Tr ρ² = 1`): unitary conjugation (iff), transposition, conjugation, permutation similarity. -/
+theorem pure_invariant (A U : Matrix n n ℂ) (σ : n ≃ n) (hU : Uᴴ * U = 1) :
+    (((U * A * Uᴴ).PosSemidef ∧ (U * A * Uᴴ).trace = 1 ∧ ((U * A * Uᴴ) * (U * A * Uᴴ)).trace = 1) ↔
+      (A.PosSemidef ∧ A.trace = 1 ∧ (A * A).trace = 1)) ∧
+    ((A.PosSemidef ∧ A.trace = 1 ∧ (A * A).trace = 1) → Aᵀ.PosSemidef ∧ Aᵀ.trace = 1 ∧ (Aᵀ * Aᵀ).trace = 1) ∧
+    ((A.PosSemidef ∧ A.trace = 1 ∧ (A * A).trace = 1) →
+      (A.map star).PosSemidef ∧ (A.map star).trace = 1 ∧ (A.map star * A.map star).trace = 1) ∧
+    ((A.PosSemidef ∧ A.trace = 1 ∧ (A * A).trace = 1) →
+      (A.submatrix σ σ).PosSemidef ∧ (A.submatrix σ σ).trace = 1 ∧ (A.submatrix σ σ * A.submatrix σ σ).trace = 1) :=
+  ⟨Toq.MatrixInv.pure_conj_iff A U hU, Toq.MatrixInv.pure_transpose A, Toq.MatrixInv.pure_map_star A,
+    Toq.MatrixInv.pure_submatrix A σ⟩
+
+/-- **diagonally dominant**, strict and non-strict (over `ℂ`): permutation similarity, phase conjugation, entrywise conjugation, negation,
+    scaling by `c ≠ 0` (all iff). -/
+theorem diagDominant_invariant (A : Matrix n n ℂ) (σ : n ≃ n) (d : n → ℂ) (c : ℂ) (hd : ∀ i, ‖d i‖ = 1) (hc : c ≠ 0) :
+    ((∀ i, ∑ j ∈ Finset.univ.erase i, ‖A.submatrix σ σ i j‖ < ‖A.submatrix σ σ i i‖) ↔
+      ∀ i, ∑ j ∈ Finset.univ.erase i, ‖A i j‖ < ‖A i i‖) ∧
+    ((∀ i, ∑ j ∈ Finset.univ.erase i, ‖A.submatrix σ σ i j‖ ≤ ‖A.submatrix σ σ i i‖) ↔
+      ∀ i, ∑ j ∈ Finset.univ.erase i, ‖A i j‖ ≤ ‖A i i‖) ∧
+    ((∀ i, ∑ j ∈ Finset.univ.erase i, ‖(diagonal d * A * (diagonal d)ᴴ) i j‖ < ‖(diagonal d * A * (diagonal d)ᴴ) i i‖) ↔
+      ∀ i, ∑ j ∈ Finset.univ.erase i, ‖A i j‖ < ‖A i i‖) ∧
+    ((∀ i, ∑ j ∈ Finset.univ.erase i, ‖(diagonal d * A * (diagonal d)ᴴ) i j‖ ≤ ‖(diagonal d * A * (diagonal d)ᴴ) i i‖) ↔
+      ∀ i, ∑ j ∈ Finset.univ.erase i, ‖A i j‖ ≤ ‖A i i‖) ∧
+    (((∀ i, ∑ j ∈ Finset.univ.erase i, ‖A.map star i j‖ < ‖A.map star i i‖) ↔ ∀ i, ∑ j ∈ Finset.univ.erase i, ‖A i j‖ < ‖A i i‖) ∧
+      ((∀ i, ∑ j ∈ Finset.univ.erase i, ‖(-A) i j‖ < ‖(-A) i i‖) ↔ ∀ i, ∑ j ∈ Finset.univ.erase i, ‖A i j‖ < ‖A i i‖)) ∧
+    (((∀ i, ∑ j ∈ Finset.univ.erase i, ‖A.map star i j‖ ≤ ‖A.map star i i‖) ↔ ∀ i, ∑ j ∈ Finset.univ.erase i, ‖A i j‖ ≤ ‖A i i‖) ∧
+      ((∀ i, ∑ j ∈ Finset.univ.erase i, ‖(-A) i j‖ ≤ ‖(-A) i i‖) ↔ ∀ i, ∑ j ∈ Finset.univ.erase i, ‖A i j‖ ≤ ‖A i i‖)) ∧
+    ((∀ i, ∑ j ∈ Finset.univ.erase i, ‖(c • A) i j‖ < ‖(c • A) i i‖) ↔ ∀ i, ∑ j ∈ Finset.univ.erase i, ‖A i j‖ < ‖A i i‖) ∧
+    ((∀ i, ∑ j ∈ Finset.univ.erase i, ‖(c • A) i j‖ ≤ ‖(c • A) i i‖) ↔ ∀ i, ∑ j ∈ Finset.univ.erase i, ‖A i j‖ ≤ ‖A i i‖) :=
+  ⟨Toq.MatrixInv.sdd_submatrix_iff A σ, Toq.MatrixInv.dd_submatrix_iff A σ, Toq.MatrixInv.sdd_phase_iff A d hd,
+    Toq.MatrixInv.dd_phase_iff A d hd, Toq.MatrixInv.sdd_map_star_neg_iff A, Toq.MatrixInv.dd_map_star_neg_iff A,
+    Toq.MatrixInv.sdd_smul_iff A c hc, Toq.MatrixInv.dd_smul_iff A c hc⟩
+
+/-- **stochastic** (over `ℝ`): permutation similarity keeps row- and column-stochasticity (iff), transposition exchanges them (iff),
+    doubly stochastic matrices stay so under transposition and independent row / column permutations. -/
+theorem stochastic_invariant (A : Matrix n n ℝ) (σ τ : n ≃ n) :
+    (((∀ i j, 0 ≤ A.submatrix σ σ i j) ∧ ∀ i, ∑ j, A.submatrix σ σ i j = 1) ↔ ((∀ i j, 0 ≤ A i j) ∧ ∀ i, ∑ j, A i j = 1)) ∧
+    (((∀ i j, 0 ≤ A.submatrix σ σ i j) ∧ ∀ j, ∑ i, A.submatrix σ σ i j = 1) ↔ ((∀ i j, 0 ≤ A i j) ∧ ∀ j, ∑ i, A i j = 1)) ∧
+    (((∀ i j, 0 ≤ Aᵀ i j) ∧ ∀ j, ∑ i, Aᵀ i j = 1) ↔ ((∀ i j, 0 ≤ A i j) ∧ ∀ i, ∑ j, A i j = 1)) ∧
+    (((∀ i j, 0 ≤ A i j) ∧ (∀ i, ∑ j, A i j = 1) ∧ ∀ j, ∑ i, A i j = 1) →
+      (∀ i j, 0 ≤ Aᵀ i j) ∧ (∀ i, ∑ j, Aᵀ i j = 1) ∧ ∀ j, ∑ i, Aᵀ i j = 1) ∧
+    (((∀ i j, 0 ≤ A i j) ∧ (∀ i, ∑ j, A i j = 1) ∧ ∀ j, ∑ i, A i j = 1) →
+      (∀ i j, 0 ≤ A.submatrix σ τ i j) ∧ (∀ i, ∑ j, A.submatrix σ τ i j = 1) ∧ ∀ j, ∑ i, A.submatrix σ τ i j = 1) :=
+  ⟨Toq.MatrixInv.rowStoch_submatrix_iff A σ, Toq.MatrixInv.colStoch_submatrix_iff A σ, Toq.MatrixInv.rowStoch_transpose_iff A,
+    Toq.MatrixInv.doublyStoch_transpose A, Toq.MatrixInv.doublyStoch_submatrix A σ τ⟩
+
+/-- **entrywise non-negative / positive, doubly non-negative** (over `ℝ`): row and column permutations (iff), transposition, scaling by
+    `c ≥ 0` resp. `c > 0`. -/
+theorem nonnegative_invariant (A : Matrix n n ℝ) (σ τ : n ≃ n) (c : ℝ) :
+    ((∀ i j, 0 ≤ A.submatrix σ τ i j) ↔ ∀ i j, 0 ≤ A i j) ∧ ((∀ i j, 0 < A.submatrix σ τ i j) ↔ ∀ i j, 0 < A i j) ∧
+    ((∀ i j, 0 ≤ A i j) → ∀ i j, 0 ≤ Aᵀ i j) ∧ ((∀ i j, 0 < A i j) → ∀ i j, 0 < Aᵀ i j) ∧
+    (0 ≤ c → (∀ i j, 0 ≤ A i j) → ∀ i j, 0 ≤ (c • A) i j) ∧ (0 < c → (∀ i j, 0 < A i j) → ∀ i j, 0 < (c • A) i j) ∧
+    ((A.PosSemidef ∧ ∀ i j, 0 ≤ A i j) → (A.submatrix σ σ).PosSemidef ∧ ∀ i j, 0 ≤ A.submatrix σ σ i j) ∧
+    ((A.PosSemidef ∧ ∀ i j, 0 ≤ A i j) → Aᵀ.PosSemidef ∧ ∀ i j, 0 ≤ Aᵀ i j) ∧
+    (0 ≤ c → (A.PosSemidef ∧ ∀ i j, 0 ≤ A i j) → (c • A).PosSemidef ∧ ∀ i j, 0 ≤ (c • A) i j) :=
+  ⟨Toq.MatrixInv.nonneg_submatrix_iff A σ τ, Toq.MatrixInv.pos_submatrix_iff A σ τ, Toq.MatrixInv.nonneg_transpose A,
+    Toq.MatrixInv.pos_transpose A, Toq.MatrixInv.nonneg_smul A c, Toq.MatrixInv.pos_smul A c,
+    Toq.MatrixInv.doublyNonneg_submatrix A σ, Toq.MatrixInv.doublyNonneg_transpose A, Toq.MatrixInv.doublyNonneg_smul A c⟩
+
+/-- **totally positive** (all minors with increasing row and column selections positive; rectangular, over `ℝ`): transposition and
+    reversal of both index orders (iff), scaling by `a > 0`, positive diagonal scalings `D₁ A D₂`. -/
+theorem totallyPositive_invariant {p q : ℕ} (A : Matrix (Fin p) (Fin q) ℝ) (a : ℝ) (d₁ : Fin p → ℝ) (d₂ : Fin q → ℝ)
+    (ha : 0 < a) (h1 : ∀ i, 0 < d₁ i) (h2 : ∀ j, 0 < d₂ j) :
+    ((∀ (k : ℕ) (r : Fin k ↪o Fin q) (c : Fin k ↪o Fin p), 0 < (Aᵀ.submatrix r c).det) ↔
+      ∀ (k : ℕ) (r : Fin k ↪o Fin p) (c : Fin k ↪o Fin q), 0 < (A.submatrix r c).det) ∧
+    ((∀ (k : ℕ) (r : Fin k ↪o Fin p) (c : Fin k ↪o Fin q), 0 < ((A.submatrix Fin.rev Fin.rev).submatrix r c).det) ↔
+      ∀ (k : ℕ) (r : Fin k ↪o Fin p) (c : Fin k ↪o Fin q), 0 < (A.submatrix r c).det) ∧
+    ((∀ (k : ℕ) (r : Fin k ↪o Fin p) (c : Fin k ↪o Fin q), 0 < (A.submatrix r c).det) →
+      ∀ (k : ℕ) (r : Fin k ↪o Fin p) (c : Fin k ↪o Fin q), 0 < ((a • A).submatrix r c).det) ∧
+    ((∀ (k : ℕ) (r : Fin k ↪o Fin p) (c : Fin k ↪o Fin q), 0 < (A.submatrix r c).det) →
+      ∀ (k : ℕ) (r : Fin k ↪o Fin p) (c : Fin k ↪o Fin q), 0 < ((diagonal d₁ * A * diagonal d₂).submatrix r c).det) :=
+  ⟨Toq.MatrixInv.totPos_transpose_iff A, Toq.MatrixInv.totPos_reverse_both_iff A, Toq.MatrixInv.totPos_smul A a ha,
+    Toq.MatrixInv.totPos_diag_scaling A d₁ d₂ h1 h2⟩
+
+/-- **sets of vectors** (over `ℂ`): linear independence is unchanged (iff) by a common isometry `U`, by reordering and by unit-modulus
+    phases on the vectors; mutual orthogonality and orthonormality likewise (a common isometry: iff; reordering; scalings resp. phases). -/
+theorem vector_set_invariant {ι : Type} [DecidableEq ι] (U : Matrix n n ℂ) (hU : Uᴴ * U = 1) (σ : ι ≃ ι) (c : ι → ℂ)
+    (hc : ∀ k, ‖c k‖ = 1) (v : ι → n → ℂ) :
+    ((LinearIndependent ℂ fun k => U.mulVec (v k)) ↔ LinearIndependent ℂ v) ∧
+    (LinearIndependent ℂ (v ∘ σ) ↔ LinearIndependent ℂ v) ∧
+    ((LinearIndependent ℂ fun k => c k • v k) ↔ LinearIndependent ℂ v) ∧
+    ((∀ i j, i ≠ j → star (U.mulVec (v i)) ⬝ᵥ U.mulVec (v j) = 0) ↔ ∀ i j, i ≠ j → star (v i) ⬝ᵥ v j = 0) ∧
+    ((∀ i j, i ≠ j → star (v i) ⬝ᵥ v j = 0) → ∀ i j, i ≠ j → star ((v ∘ σ) i) ⬝ᵥ (v ∘ σ) j = 0) ∧
+    ((∀ i j, i ≠ j → star (v i) ⬝ᵥ v j = 0) → ∀ i j, i ≠ j → star (c i • v i) ⬝ᵥ (c j • v j) = 0) ∧
+    ((∀ i j, star (U.mulVec (v i)) ⬝ᵥ U.mulVec (v j) = if i = j then 1 else 0) ↔ ∀ i j, star (v i) ⬝ᵥ v j = if i = j then 1 else 0) ∧
+    ((∀ i j, star (v i) ⬝ᵥ v j = if i = j then 1 else 0) → ∀ i j, star ((v ∘ σ) i) ⬝ᵥ (v ∘ σ) j = if i = j then 1 else 0) ∧
+    ((∀ i j, star (v i) ⬝ᵥ v j = if i = j then 1 else 0) → ∀ i j, star (c i • v i) ⬝ᵥ (c j • v j) = if i = j then 1 else 0) :=
+  ⟨Toq.MatrixInv.linIndep_common_unitary_iff U hU v, Toq.MatrixInv.linIndep_reorder_iff σ v, Toq.MatrixInv.linIndep_phases_iff c hc v,
+    Toq.MatrixInv.orth_common_unitary_iff U hU v, Toq.MatrixInv.orth_reorder σ v, Toq.MatrixInv.orth_smul c v,
+    Toq.MatrixInv.orthonormal_common_unitary_iff U hU v, Toq.MatrixInv.orthonormal_reorder σ v,
+    Toq.MatrixInv.orthonormal_phases c (fun k => Toq.MatrixInv.star_mul_self_of_norm_one (c k) (hc k)) v⟩
+
+/-- **mutually unbiased**: the overlaps `|⟨v_i, w_j⟩|` between two families are unchanged by a common isometry and by unit-modulus phases,
+    and a constant overlap survives reordering within each family. -/
+theorem mub_invariant {ι κ : Type} (U : Matrix n n ℂ) (hU : Uᴴ * U = 1) (c : ι → ℂ) (e : κ → ℂ) (hc : ∀ k, ‖c k‖ = 1)
+    (he : ∀ k, ‖e k‖ = 1) (σ : ι ≃ ι) (τ : κ ≃ κ) (v : ι → n → ℂ) (w : κ → n → ℂ) (a : ℝ) :
+    (∀ i j, ‖star (U.mulVec (v i)) ⬝ᵥ U.mulVec (w j)‖ = ‖star (v i) ⬝ᵥ w j‖) ∧
+    (∀ i j, ‖star (c i • v i) ⬝ᵥ (e j • w j)‖ = ‖star (v i) ⬝ᵥ w j‖) ∧
+    ((∀ i j, ‖star (v i) ⬝ᵥ w j‖ = a) → ∀ i j, ‖star ((v ∘ σ) i) ⬝ᵥ (w ∘ τ) j‖ = a) :=
+  ⟨Toq.MatrixInv.mub_norm_common_unitary U hU v w, Toq.MatrixInv.mub_norm_phases c e hc he v w,
+    Toq.MatrixInv.mub_norm_reorder σ τ v w a⟩
+
+end invarianceOrder
+
+
+/-! ## concrete instances for Parts 5–6 (the hypotheses are satisfiable, the deciders and mirrors compute) -/
+
+/-- the self-certifying definiteness deciders on the complex Hermitian positive definite `[[2, i], [-i, 2]]` and the indefinite
+    `[[1, 2], [2, 1]]` (certificate search and proved checker run inside the kernel) -/
+example : psdV (⟨2, 2, fun i j => if i = j then ⟨2, 0⟩ else ⟨0, if i < j then 1 else -1⟩⟩ : Mat QI) (1 / 1000) = .yes ∧ psdV (⟨2, 2, fun i j => if i = j then ⟨1, 0⟩ else ⟨2, 0⟩⟩ : Mat QI) (1 / 1000) = .no ∧ pdV (⟨2, 2, fun i j => if i = j then ⟨2, 0⟩ else ⟨0, if i < j then 1 else -1⟩⟩ : Mat QI) (1 / 1000) = .yes ∧ pdV (⟨2, 2, fun i j => if i = j then ⟨1, 0⟩ else ⟨2, 0⟩⟩ : Mat QI) (1 / 1000) = .no := by
+  decide +kernel
+
+/-- `np.isclose` is asymmetric: `1` is close to `1 + 5·10⁻⁶` with the default tolerances, `1 + 5·10⁻⁶` is not close to `0` -/
+example : closeQ ⟨1, 0⟩ ⟨1 + 1 / 200000, 0⟩ rtolDefault atolDefault = true ∧
+    closeQ ⟨1 + 1 / 200000, 0⟩ ⟨0, 0⟩ rtolDefault atolDefault = false := by decide +kernel
+
+/-- the tolerance-level mirrors on `[[2, i], [-i, 2]]`: Hermitian, not symmetric -/
+example : hermitianT (⟨2, 2, fun i j => if i = j then ⟨2, 0⟩ else ⟨0, if i < j then 1 else -1⟩⟩ : Mat QI) rtolDefault atolDefault = true ∧ symmetricT (⟨2, 2, fun i j => if i = j then ⟨2, 0⟩ else ⟨0, if i < j then 1 else -1⟩⟩ : Mat QI) rtolDefault atolDefault = false := by decide +kernel
+
+/-- hence (Part 5) the three-valued verdicts agree: `hermitianV = yes`, `symmetricV = no` at margin `10⁻³` -/
+example : hermitianV (⟨2, 2, fun i j => if i = j then ⟨2, 0⟩ else ⟨0, if i < j then 1 else -1⟩⟩ : Mat QI) (1 / 1000) = .yes ∧ symmetricV (⟨2, 2, fun i j => if i = j then ⟨2, 0⟩ else ⟨0, if i < j then 1 else -1⟩⟩ : Mat QI) (1 / 1000) = .no := by decide +kernel
+
+
+/-! ## Part 9 — further code branches inside the model: `is_diagonal` line by line, `tensor_comb` -/
+
+/-- **the reshape trick of `is_diagonal`** (`mat.reshape(-1)[:-1].reshape(n-1, n+1)[:, 1:]` must vanish) tests exactly the
+    off-diagonal entries: the line-by-line mirror agrees with the definition for all sizes. -/
+theorem diagonal_reshape_trick (A : Mat QI) : diagonalTrick A = true ↔ diagonalV A = .yes := diagonalTrick_iff A
+
+/-- the keys of `tensor_comb(states, k)` are all index sequences of length `k` (`itertools.product(range(n), repeat=k)`). -/
+theorem tensor_comb_sequences (n k : Nat) (l : List Nat) : l ∈ productSeqs n k ↔ l.length = k ∧ ∀ x ∈ l, x < n :=
+  mem_productSeqs n k l
+
+/-- **the density matrix of a product state is the product of the density matrices**, `(u ⊗ v)(u ⊗ v)ᴴ = (u uᴴ) ⊗ (v vᴴ)` — what
+    `tensor_comb` computes for each sequence. -/
+theorem tensor_comb_density_of_product {α : Type} [CommSemiring α] [StarRing α] (u v : Mat α) (i j : Nat) :
+    (outerConj (u.c * v.c) (fun k => (kron u v).f 0 k)).f i j
+      = (kron (outerConj u.c (fun k => u.f 0 k)) (outerConj v.c (fun k => v.f 0 k))).f i j :=
+  outerConj_kron u v i j
+
+/-- `tensor_comb` on two qubit states with `k = 2`: four sequences, in the order of `itertools.product` -/
+example : productSeqs 2 2 = [[0, 0], [0, 1], [1, 0], [1, 1]] := by decide
 
 end Toq.C16
